@@ -89,6 +89,9 @@ struct Inner {
     jitter_seed: u64,
     jitter_max_ms: u64,
     frames: u64,
+    /// seeded scheduling noise: the caller of connect/send yields to the scheduler up to this many times first
+    yield_max: u8,
+    yields: u64,
 }
 
 pub struct Hub {
@@ -136,7 +139,7 @@ pub fn now_secs() -> u64 {
 
 impl Hub {
     pub fn new(jitter_seed: u64, jitter_max_ms: u64) -> Arc<Self> {
-        let h = Arc::new(Hub { inner: Mutex::new(Inner { nodes: HashMap::new(), by_addr: HashMap::new(), trace: Vec::new(), manual: false, parked: VecDeque::new(), jitter_seed, jitter_max_ms, frames: 0 }), start: tokio::time::Instant::now(), me: Mutex::new(std::sync::Weak::new()) });
+        let h = Arc::new(Hub { inner: Mutex::new(Inner { nodes: HashMap::new(), by_addr: HashMap::new(), trace: Vec::new(), manual: false, parked: VecDeque::new(), jitter_seed, jitter_max_ms, frames: 0, yield_max: 0, yields: 0 }), start: tokio::time::Instant::now(), me: Mutex::new(std::sync::Weak::new()) });
         *h.me.lock().unwrap() = Arc::downgrade(&h);
         h
     }
@@ -159,6 +162,22 @@ impl Hub {
     pub fn set_stub(&self, id: &str, s: StubScript) {
         if let Some(e) = self.inner.lock().unwrap().nodes.get_mut(id) {
             e.stub = Some(s);
+        }
+    }
+    pub fn set_yield_max(&self, y: u8) {
+        self.inner.lock().unwrap().yield_max = y;
+    }
+    async fn seeded_yields(&self) {
+        let k = {
+            let mut g = self.inner.lock().unwrap();
+            if g.yield_max == 0 {
+                return;
+            }
+            g.yields += 1;
+            blake3::hash(&[&g.jitter_seed.to_le_bytes()[..], &g.yields.to_le_bytes()[..], b"y"].concat()).as_bytes()[0] % (g.yield_max + 1)
+        };
+        for _ in 0..k {
+            tokio::task::yield_now().await;
         }
     }
     pub fn set_manual(&self, m: bool) {
@@ -248,6 +267,7 @@ impl Hub {
 #[async_trait]
 impl MemNet for Hub {
     async fn connect(&self, from: &str, addr: SocketAddr) -> Option<String> {
+        self.seeded_yields().await;
         let (to, th, from_addr, mode) = {
             let g = self.inner.lock().unwrap();
             let to = g.by_addr.get(&addr).cloned();
@@ -267,6 +287,7 @@ impl MemNet for Hub {
     }
 
     async fn send(&self, from: &str, to: &str, frame: Vec<u8>) -> Result<(), String> {
+        self.seeded_yields().await;
         let (proto, data) = wire::decode_wire_message(&frame).map(|(p, d, _, _)| (p, d)).unwrap_or_default();
         let info = dht_info(&proto, &data);
         self.push(Ev::Frame { t: self.t(), from: from.into(), to: to.into(), proto: proto.clone(), len: frame.len(), dht: info });
